@@ -10,8 +10,10 @@
       internal/rules/mechanisms/oauth2/*_matcher.go     exact / hierarchic / wildcard scope matching
       internal/rules/mechanisms/authenticators/subject_info.go   subject id from the verified payload
 
-    Faithful to the code as it is (defects included; [fixed_F1]/[fixed_F2] select the
-    repaired variants of fixes/C05-F1.diff, fixes/C05-F2.diff).
+    Faithful to the code as it is.  The flags [fixed_F1]/[fixed_F2] select between the behaviour
+    before (false) and after (true) the fix: commits a3a89b7 (C05-F1, fixes/C05-F1.diff) and
+    f16c3cc (C05-F2, fixes/C05-F2.diff); /repo now carries both, so [authenticate] is the
+    variant (true, true) and [authenticate_pinned] the former behaviour.
 
     Oracles (data of a case, never axioms): whether the compact serialisation
     parses ([CUnparsable]), under which published key material the signature
@@ -347,8 +349,11 @@ Definition authenticate_gen (f1 f2 : bool) (cf : config) (ks : list jwk) (now : 
          end
   end.
 
-(** the code as it is *)
-Definition authenticate := authenticate_gen false false.
+(** the code as it is (with the fix: commits a3a89b7 and f16c3cc) *)
+Definition authenticate := authenticate_gen true true.
+
+(** the code as it was before those two commits (pinned for the record of C05-F1 / C05-F2) *)
+Definition authenticate_pinned := authenticate_gen false false.
 
 (* ------------------------------------------------------------------ observables *)
 
